@@ -2,6 +2,7 @@ package service
 
 import (
 	gocontext "context"
+	"fmt"
 	"github.com/orda-io/orda/client/pkg/context"
 	"github.com/orda-io/orda/client/pkg/errors"
 	"github.com/orda-io/orda/client/pkg/iface"
@@ -71,7 +72,13 @@ func (its *OrdaService) PatchDocument(goCtx gocontext.Context, req *model.PatchM
 
 		pushPullHandler := newPushPullHandler(ctx, ppp, clientDoc, collectionDoc, its.managers)
 		pppCh := pushPullHandler.Start()
-		_ = <-pppCh
+		if res := <-pppCh; res.GetPushPullPackOption().HasErrorBit() {
+			// The push was refused (lock of the datatype not obtained, storage failure, ...): the operations of the patch
+			// are not in the log and the patched JSON is not what is stored. Patching again is safe: the patch is
+			// derived anew from the stored document. 'err' is written by the handler before it answers.
+			return nil, errors.NewRPCError(errors.ServerDBQuery.New(ctx.L(),
+				fmt.Sprintf("fail to push the operations of the patch: %v", pushPullHandler.err)))
+		}
 	}
 
 	return &model.PatchMessage{
